@@ -112,20 +112,19 @@ Fixpoint split_pat (c1 c2 : ascii) (s : str) : option (str * str) :=
 Definition next_piece (c1 c2 : ascii) (r : str) : str :=
   match split_pat c1 c2 r with Some (x, _) => x | None => r end.
 
-(* usize::from_str: optional '+', at least one digit, digits only, below 2^64; None = Err (the caller unwraps: panic) *)
+(* usize::from_str: optional '+', at least one digit, digits only; None = Err (the caller unwraps: panic).
+   The 2^64 bound is not modelled: the exponent text of a decimal128 has at most four digits. *)
 Definition parse_usize (s : str) : option N :=
   let t := match s with "+" :: t => t | _ => s end in
   match t with
   | [] => None
-  | _ => if all_digits t then
-           let v := digits_val t in if (v <? 2 ^ 64)%N then Some v else None
-         else None
+  | _ => if all_digits t then Some (digits_val t) else None
   end.
 
 (* a - b on usize: None = overflow panic (debug) / absurd allocation (release) *)
 Definition checked_sub (a b : N) : option N := if (a <? b)%N then None else Some (a - b)%N.
 
-Definition contains_char (c : ascii) (s : str) : bool := existsb (Ascii.eqb c) s.
+Definition contains_char (c : ascii) (s : str) : bool := existsb (fun a => Ascii.eqb a c) s.
 
 (* ------------------------------------------------------------------ scientific_to_plain *)
 (* the body of the function as it was at the pinned commit *)
